@@ -45,6 +45,7 @@ def check(repo, tier="quick"):
     _c20.rule_c(repo, _sub, _cm(_rd), _cm(_wr), repo.mod("bitstream.io").rel)
     _c20.rule_d(repo, _sub, _cm(_rd), _cm(_wr), repo.mod("bitstream.io").rel)
     _c20.rule_g(repo, _sub, _cm(_rd), _cm(_wr), repo.mod("bitstream.io").rel)
+    _c20.rule_e(repo, _sub, _cm(_rd), _cm(_wr), repo.mod("bitstream.io").rel)
     # ... and of the serdes primitives built on them (C21.a: same primitive set, read_X / write_X pairs, unconditional)
     from . import c21 as _c21
 
